@@ -2182,12 +2182,12 @@ def eqn2_helpers(e, bitslice=False, widening=False):
         # if e:= (l [>> <<] r) with r >= size then e:= 0
         elif e.op.symbol in (OP_LSL, OP_LSR) and not (0 < e.r.value < e.l.size):
             return cst(0, e.size)
-        elif bitslice and e.op.symbol in (OP_LSL):
+        elif bitslice and e.op.symbol == OP_LSL:
             return composer(
                 [bit0] * e.r.value
                 + [e.l[i : i + 1] for i in range(0, e.size - e.r.value)]
             )
-        elif bitslice and e.op.symbol in (OP_LSR):
+        elif bitslice and e.op.symbol == OP_LSR:
             return composer(
                 [e.l[i : i + 1] for i in range(e.r.value, e.size)] + [bit0] * e.r.value
             )
